@@ -674,6 +674,8 @@ fn lex_line(
 							}
 							None =>
 							{
+								// Nothing followed the backslash after all.
+								source_offset_end -= 1;
 								let warning = LexedToken {
 									result: Err(
 										Error::UnexpectedTrailingBackslash,
